@@ -137,6 +137,10 @@ SHAPE_BEGIN(16) NAMED_REQUIRE_CALL(m, ce(trompeloeil::_)).IN_SEQUENCE(*x.s0).CO_
 SHAPE_BEGIN(17) NAMED_REQUIRE_CALL(m, cl0()).IN_SEQUENCE(*x.s0).TIMES(1, 2).CO_YIELD(cy(x.id, 0, x.v[1])).CO_RETURN(cret(x.id, x.v[1] + 10)) SHAPE_END
 SHAPE_BEGIN(18) NAMED_FORBID_CALL(m, ce(x.v[0])) SHAPE_END
 SHAPE_BEGIN(19) NAMED_REQUIRE_CALL(m, cl(trompeloeil::_)).IN_SEQUENCE(*x.s0).CO_YIELD(cy(x.id, 0, x.v[1])).CO_RETURN(cret(x.id, x.v[1] + 10)) SHAPE_END
+SHAPE_BEGIN(20) NAMED_ALLOW_CALL(m, cl0()).CO_YIELD(cy(x.id, 0, x.v[1])).CO_RETURN(cret(x.id, x.v[1] + 10)).CO_YIELD(cy(x.id, 1, x.v[1] + 1)) SHAPE_END
+SHAPE_BEGIN(21) NAMED_REQUIRE_CALL(m, ce(trompeloeil::_)).TIMES(1, 3).CO_THROW(cthr(x.id)).CO_YIELD(cy(x.id, 0, x.v[1])).CO_YIELD(cy(x.id, 1, x.v[1] + 1)) SHAPE_END
+SHAPE_BEGIN(22) NAMED_ALLOW_CALL(m, cl0()).LR_CO_YIELD(cy(x.id, 0, x.v[1])).CO_YIELD(cy(x.id, 1, x.v[1] + 1)).LR_CO_RETURN(cret(x.id, x.v[1] + 10)) SHAPE_END
+SHAPE_BEGIN(23) NAMED_ALLOW_CALL(m, ce(trompeloeil::_)).CO_RETURN(cret(x.id, x.v[1] + 10)).CO_YIELD(cy(x.id, 0, x.v[1])).LR_CO_YIELD(cy(x.id, 1, x.v[1] + 1)).CO_YIELD(cy(x.id, 2, x.v[1] + 2)) SHAPE_END
 static const CShape cshapes[] = {
   {CF_CE, 0, RT_VALUE, 0, 1, 1, false, false, 0, "m.ce(trompeloeil::_)", cshape_0},
   {CF_CE, 1, RT_VALUE, 1, 1, 1, false, true, 0, "m.ce(x.v[0])", cshape_1},
@@ -158,12 +162,18 @@ static const CShape cshapes[] = {
   {CF_CL0, 1, RT_VALUE, 0, 1, 2, true, false, 0, "m.cl0()", cshape_17},
   {CF_CE, 0, RT_VOID, 0, 0, 0, false, true, 0, "m.ce(x.v[0])", cshape_18},
   {CF_CL, 1, RT_VALUE, 0, 1, 1, true, false, 0, "m.cl(trompeloeil::_)", cshape_19},
+  {CF_CL0, 2, RT_VALUE, 0, 0, -1, false, false, 0, "m.cl0()", cshape_20},
+  {CF_CE, 2, RT_THROW, 0, 1, 3, false, false, 0, "m.ce(trompeloeil::_)", cshape_21},
+  {CF_CL0, 2, RT_VALUE, 0, 0, -1, false, false, 0, "m.cl0()", cshape_22},
+  {CF_CE, 3, RT_VALUE, 0, 0, -1, false, false, 0, "m.ce(trompeloeil::_)", cshape_23},
 };
+// which clauses are LR_ (see the local as it is when evaluated): bit k = yield k, bit 8 = the CO_RETURN expression
+static unsigned lr_mask(int shape) { return shape == 22 ? (1u | 256u) : shape == 23 ? 2u : 0u; }
 static const int ncshapes = sizeof cshapes / sizeof cshapes[0];
 
 // ---------------- model ----------------
-struct MExpC { int id, shape; int v[2]; long L, H, n = 0; bool alive = true, attached = true, saturated = false, named = false; bool in_seq = false; int live_coros = 0; };
-struct MCoro { int id, exp, fn; int pos = 0; bool done = false; bool alive = true; int arg = 0; int yielded = 0; bool started = false; };
+struct MExpC { int id, shape; int v[2]; int live_v1 = 0; long L, H, n = 0; bool alive = true, attached = true, saturated = false, named = false; bool in_seq = false; int live_coros = 0; };
+struct MCoro { int id, exp, fn; long ret_val = 0; std::vector<long> yvals; int pos = 0; bool done = false; bool alive = true; int arg = 0; int yielded = 0; bool started = false; };
 struct ModelC {
   std::vector<MExpC> exps;
   std::vector<MCoro> coros;
@@ -200,7 +210,7 @@ struct CoroBox {
 struct Stats {
   long ops[OP_KIND_COUNT] = {};
   long calls_accepted = 0, calls_rejected = 0, resumes = 0, late_resumes = 0, interleaved_resumes = 0, destroyed_unfinished = 0, eager = 0, lazy = 0, clause_throw = 0,
-       completed = 0, threw_at_await = 0, multi_call_same_exp = 0, lazy_with_param = 0;
+       completed = 0, threw_at_await = 0, multi_call_same_exp = 0, lazy_with_param = 0, mutations = 0;
 };
 
 class ExecC {
@@ -251,6 +261,7 @@ class ExecC {
       case OP_CO_RESUME: do_resume(op); break;
       case OP_CO_DESTROY: do_destroy(op); break;
       case OP_RELEASE: do_release(op); break;
+      case OP_MUTATE: do_mutate(op); break;
       default: break;
     }
     if (!failed) observe();
@@ -261,7 +272,7 @@ class ExecC {
     int shape = static_cast<int>(static_cast<unsigned>(op.a[0]) % static_cast<unsigned>(ncshapes));
     const CShape& d = cshapes[shape];
     if (!allow_lazy_params && d.fn == CF_CL) return;
-    MExpC e; e.id = static_cast<int>(M.exps.size()); e.shape = shape; e.v[0] = op.a[2]; e.v[1] = op.a[3];
+    MExpC e; e.id = static_cast<int>(M.exps.size()); e.shape = shape; e.v[0] = op.a[2]; e.v[1] = op.a[3]; e.live_v1 = e.v[1];
     long lo = ((op.a[5] % 3) + 3) % 3, hi = lo + ((op.a[6] % 3) + 3) % 3; if (hi == 0) hi = 1;
     if (d.L == -2) { e.L = lo; e.H = hi; } else { e.L = d.L; e.H = d.H; }
     e.in_seq = d.seq;
@@ -273,6 +284,15 @@ class ExecC {
     eps[static_cast<size_t>(e.id)] = d.make(*mock, *x);
     insts[static_cast<size_t>(e.id)] = std::move(x);
     if (!reports.empty()) fail("expect_report", "creating an expectation reported: " + reports[0].msg);
+  }
+
+  // the local a clause mentions changes after the expectation was written: plain clauses copied it, LR_ clauses see it
+  void do_mutate(const Op& op) {
+    auto live = live_exps(); if (live.empty()) return;
+    int id = live[static_cast<unsigned>(op.a[0]) % live.size()];
+    M.exps[static_cast<size_t>(id)].live_v1 += 100 + (op.a[1] & 7);
+    insts[static_cast<size_t>(id)]->v[1] = M.exps[static_cast<size_t>(id)].live_v1;
+    ++st.mutations;
   }
 
   void do_release(const Op& op) {
@@ -297,16 +317,17 @@ class ExecC {
     finishes = false; throws = false;
     if (c.pos < d.nyield) {
       int k = c.pos;
-      long v = e.v[1] + k;
+      long v = ((lr_mask(e.shape) >> k) & 1 ? e.live_v1 : e.v[1]) + k;
       if (d.fn == CF_CR && ((e.shape == 14 && k == 0) || (e.shape == 15 && k == 1))) v = c.arg;
       want.push_back(Ev{'Y', c.exp, k, v});
+      c.yvals.push_back(v);
       if (g_fault_inst == c.exp && g_fault_k == k) { finishes = true; throws = true; }
       return;
     }
     finishes = true;
     if (d.ret == RT_THROW) { want.push_back(Ev{'T', c.exp, 0, 0}); throws = true; }
     else if (d.ret == RT_VOID) { /* CO_RETURN() has no expression to evaluate */ }
-    else { long v = d.ret == RT_PARAM ? c.arg + 100 : (d.nyield ? e.v[1] + 10 : e.v[1]); want.push_back(Ev{'R', c.exp, 0, v}); if (g_fault_inst == c.exp && g_fault_k == -1) throws = true; }
+    else { long base = (lr_mask(e.shape) & 256u) ? e.live_v1 : e.v[1]; long v = d.ret == RT_PARAM ? c.arg + 100 : (d.nyield ? base + 10 : base); c.ret_val = v; want.push_back(Ev{'R', c.exp, 0, v}); if (g_fault_inst == c.exp && g_fault_k == -1) throws = true; }
   }
 
   bool same_log(const std::vector<Ev>& want, size_t from) {
@@ -391,8 +412,7 @@ class ExecC {
       if (cfn_arity[c.fn] >= 0 && (b.e || b.l)) {
         if (static_cast<int>(b.nyields()) != c.yielded) { fail("yield_order", std::string(when) + ": coroutine#" + std::to_string(cid) + " has produced " + std::to_string(b.nyields()) + " values, model says " + std::to_string(c.yielded)); return; }
         for (int k = 0; k < c.yielded; ++k) {
-          long v = e.v[1] + k;
-          if (d.fn == CF_CR && ((e.shape == 14 && k == 0) || (e.shape == 15 && k == 1))) v = c.arg;
+          long v = k < static_cast<int>(c.yvals.size()) ? c.yvals[static_cast<size_t>(k)] : e.v[1] + k;
           if (b.yield_at(static_cast<size_t>(k)) != v) { fail("yield_order", std::string(when) + ": value #" + std::to_string(k) + " produced by coroutine#" + std::to_string(cid) + " is " + std::to_string(b.yield_at(static_cast<size_t>(k))) + ", CO_YIELD clauses in declaration order give " + std::to_string(v)); return; }
         }
       }
@@ -449,7 +469,7 @@ class ExecC {
     } else {
       if (got_std) { fail("result", "awaiting coroutine#" + std::to_string(cid) + " raised '" + what + "' but " + desc(c.exp) + " has a CO_RETURN"); return; }
       if (d.ret != RT_VOID) {
-        long wv = d.ret == RT_PARAM ? c.arg + 100 : (d.nyield ? e.v[1] + 10 : e.v[1]);
+        long wv = c.ret_val;
         if (val != wv) { fail("result", "coroutine#" + std::to_string(cid) + " of " + desc(c.exp) + " returned " + std::to_string(val) + ", CO_RETURN gives " + std::to_string(wv)); return; }
       }
     }
@@ -491,13 +511,14 @@ static Plan gen_plan(uint64_t seed, bool faults, bool lazy_params) {
   auto mk_expect = [&]() { Op o; o.kind = OP_EXPECT; int sh = rng.below(ncshapes); for (int t = 0; t < 6 && cshapes[sh].fn != focus; ++t) sh = rng.below(ncshapes); o.a[0] = sh; o.a[2] = rng.below(3); o.a[3] = rng.below(50); o.a[5] = rng.below(3); o.a[6] = rng.below(3); return o; };
   ops.push_back(mk_expect());
   for (int i = 0; i < len; ++i) {
-    static const int w[] = {20, 30, 35, 5, 6};
+    static const int w[] = {20, 30, 35, 5, 6, 8};
     Op o;
-    switch (rng.pick(w, 5)) {
+    switch (rng.pick(w, 6)) {
       case 0: o = mk_expect(); break;
       case 1: o.kind = OP_CO_CALL; o.a[1] = rng.chance(3, 4) ? focus : rng.below(NCF); o.a[2] = rng.below(3); if (faults && rng.chance(1, 8)) { o.fault = FK_THROW; o.fault_at = rng.below(5); } break;
       case 2: o.kind = OP_CO_RESUME; o.a[0] = rng.below(8); if (faults && rng.chance(1, 10)) o.fault = FK_THROW; break;
       case 3: o.kind = OP_CO_DESTROY; o.a[0] = rng.below(8); break;
+      case 5: o.kind = OP_MUTATE; o.a[0] = rng.below(8); o.a[1] = rng.below(8); break;
       default: o.kind = OP_RELEASE; o.a[0] = rng.below(8); break;
     }
     ops.push_back(o);
@@ -578,7 +599,7 @@ int main(int argc, char** argv) {
       if (ex->st.calls_accepted) mask = 1u << 14;
       for (int i = 0; i < OP_KIND_COUNT; ++i) tot.ops[i] += ex->st.ops[i];
 #define ADD(f) tot.f += ex->st.f;
-      ADD(calls_accepted) ADD(calls_rejected) ADD(resumes) ADD(late_resumes) ADD(interleaved_resumes) ADD(destroyed_unfinished) ADD(eager) ADD(lazy) ADD(clause_throw) ADD(completed) ADD(threw_at_await) ADD(multi_call_same_exp) ADD(lazy_with_param)
+      ADD(calls_accepted) ADD(calls_rejected) ADD(resumes) ADD(late_resumes) ADD(interleaved_resumes) ADD(destroyed_unfinished) ADD(eager) ADD(lazy) ADD(clause_throw) ADD(completed) ADD(threw_at_await) ADD(multi_call_same_exp) ADD(lazy_with_param) ADD(mutations)
 #undef ADD
       if (failed) {
         std::string path = out + "/seedC-" + std::to_string(s) + ".replay";
@@ -601,7 +622,7 @@ int main(int argc, char** argv) {
   js << "},\"calls_accepted\":" << tot.calls_accepted << ",\"calls_rejected\":" << tot.calls_rejected << ",\"f_late_resume\":" << tot.late_resumes << ",\"f_interleaved_resume\":" << tot.interleaved_resumes
      << ",\"f_clause_throw\":" << tot.clause_throw << ",\"f_abandon\":" << tot.destroyed_unfinished << ",\"f_fatal_unwind\":" << tot.calls_rejected
      << ",\"p_resumes\":" << tot.resumes << ",\"p_eager_calls\":" << tot.eager << ",\"p_lazy_calls\":" << tot.lazy << ",\"p_completed\":" << tot.completed << ",\"p_threw_at_await\":" << tot.threw_at_await
-     << ",\"p_multi_call_same_expectation\":" << tot.multi_call_same_exp << ",\"p_lazy_with_parameter\":" << tot.lazy_with_param << ",\"flag_observations\":0}";
+     << ",\"p_multi_call_same_expectation\":" << tot.multi_call_same_exp << ",\"p_lazy_with_parameter\":" << tot.lazy_with_param << ",\"p_local_mutated_after_creation\":" << tot.mutations << ",\"flag_observations\":0}";
   std::printf("STATS %s\n", js.str().c_str());
   (void)faults_fired0;
   bool any_failed = false;
